@@ -26,7 +26,7 @@ CFG = {
     ],
     "modelled": ["tera.rs add_raw_templates (insertion loop, undo list), finalize_templates (all passes, commit only on success), "
                  "set_templates_auto_escape / autoescape_on, resolve_template_name, get_template_priority",
-                 "template.rs Template::new (fresh derived fields), find_parents, check_include_cycles (with the D10 repair)"],
+                 "template.rs Template::new (fresh derived fields), find_parents, check_include_cycles (with the D10 repair), find_block_cycle (D13 repair)"],
     "assumptions": ["implementation == model only on the histories enumerated by the harness",
                     "add_template_files / load_from_glob share the same insert-then-finalize-with-undo shape but are not exercised",
                     "set_fallback_prefixes / set_delimiters / register_* are only legal or only meaningful before templates exist; "
